@@ -1350,8 +1350,13 @@ def _make_pianoroll(
 
     pr_idx_pitch_start = 0
     if piano_range:
-        pianoroll = pianoroll[21:109, :]
-        pr_idx_pitch_start = 21
+        # rows of the keys of a piano (MIDI pitches 21 to 108); with a pitch
+        # margin, row 0 stands for the pitch lowest_pitch - pitch_margin
+        first_pitch = lowest_pitch - pitch_margin if pitch_margin > -1 else 0
+        first_row = int(min(max(21 - first_pitch, 0), M))
+        last_row = int(min(max(109 - first_pitch, 0), M))
+        pianoroll = pianoroll[first_row:last_row, :]
+        pr_idx_pitch_start = first_row
 
     if return_idxs:
         # indices of each note in the piano roll
